@@ -16,7 +16,7 @@ RULE = (
     "{letter, lower-case letter, word, lower-case word, letter+trailing text}, body shape per section in {1 item, "
     "empty, 2 items, trailing blank, trailing comment}, ~O bodies incl. inner blank and item-looking lines, one "
     "steering decoy (VERS/WRAP/NULL/DLM with a value that would change parsing) in ~C, ~P or the custom section, "
-    "2..3 data rows with one genuine-NULL and one decoy-NULL cell, both engines, ignore_data on/off; custom titles incl. ~MUD_DATA / ~mud_data / ~Run_parameter / ~TOOL_DEFINITION; enumeration = k-deviation ball "
+    "2..3 data rows with one genuine-NULL and one decoy-NULL cell, both engines, ignore_data on/off, blank/comment lines at the end or start of ~A, one undeclared surplus data column, a text column of ISO dates, ~W with or without a NULL item, decoys also in ~W (DLM, WRAP, VERS) and ~V (NULL); custom titles incl. ~MUD_DATA / ~mud_data / ~Run_parameter / ~TOOL_DEFINITION; enumeration = k-deviation ball "
     "around the canonical file with the order axis taking all 720 values; non-trivial = order differs from "
     "V,W,C,P,O,X,A or a title is not the upper-case letter form or a decoy is present"
 )
@@ -39,7 +39,7 @@ TITLES = {
 }
 BODIES = ["one", "empty", "two", "trailing_blank", "trailing_comment"]
 OBODIES = [["free text line"], [], ["line one", "", "line three"], ["#not a comment here", "X. 1 : looks like an item"]]
-DECOYS = [None] + [[s, m] for s in "CPX" for m in ("VERS", "WRAP", "NULL", "DLM")]
+DECOYS = [None] + [[s, m] for s in "CPX" for m in ("VERS", "WRAP", "NULL", "DLM")] + [["W", "DLM"], ["W", "WRAP"], ["W", "VERS"], ["V", "NULL"]]
 DECOY_VALUE = {"VERS": "1.2", "WRAP": "YES", "NULL": "10.0", "DLM": "COMMA"}
 
 ORDERS = ["".join(p) for p in itertools.permutations(SECS)]
@@ -57,6 +57,10 @@ def axes():
     ax.append(("decoy", DECOYS))
     ax.append(("rows", [2, 3]))
     ax.append(("ignore_data", [False, True]))
+    ax.append(("bA", ["plain", "trailing_blank", "trailing_comment", "leading_blank"]))   # noise lines inside ~A
+    ax.append(("surplus", [False, True]))     # one data column more than ~C declares
+    ax.append(("wnull", [True, False]))       # ~W carries a NULL item or not
+    ax.append(("dates", [False, True]))       # a text column of ISO dates (a hyphen in every data row)
     return ax
 
 
@@ -90,11 +94,11 @@ def points(tier):
     return pts
 
 
-def _items_for(sec, body, decoy):
+def _items_for(sec, body, decoy, wnull=True):
     """Abstract items (mnemonic, unit, value-text, descr) and trailing noise lines."""
     base = {
         "V": [("VERS", "", "2.0", "version"), ("WRAP", "", "NO", "wrap")],
-        "W": [("NULL", "", "-999.25", "null value")],
+        "W": [("NULL", "", "-999.25", "null value")] if wnull else [("KB", "M", "12.5", "kelly bushing")],
         "C": [("DEPT", "M", "", "depth"), ("C1", "U1", "11", "curve one")],
         "P": [],
         "X": [],
@@ -117,14 +121,15 @@ def build(pt):
     secs = []
 
     def header_sec(s):
-        items, noise = _items_for(s, pt["b" + s], decoy)
+        items, noise = _items_for(s, pt["b" + s], decoy, pt.get("wnull", True))
         abstract[s] = items
         return [TITLES[s][pt["t" + s]]] + [lasgen.item_line(*it) for it in items] + noise
 
     secs.append(header_sec("V"))
     ncurves = 2 + (1 if decoy and decoy[0] == "C" else 0)
     rows = pt["rows"]
-    matrix = [[10.0 * (i + 1) + j + 0.5 for j in range(ncurves)] for i in range(rows)]
+    ncols = ncurves + (1 if pt.get("surplus") else 0)
+    matrix = [[10.0 * (i + 1) + j + 0.5 for j in range(ncols)] for i in range(rows)]
     matrix[0][1] = -999.25
     matrix[1][1] = 10.0
     for s in pt["order"]:
@@ -135,10 +140,16 @@ def build(pt):
             abstract["O"] = "\n".join(x.strip() for x in body)
             secs.append([TITLES["O"][pt["tO"]]] + body)
         else:
-            secs.append([TITLES["A"][pt["tA"]]] + ["  ".join(repr(v) for v in row) for row in matrix])
+            drows = ["  ".join([repr(v) for v in row] + (["2018-05-%02d" % (i + 20)] if pt.get("dates") else []))
+                     for i, row in enumerate(matrix)]
+            bA = pt.get("bA", "plain")
+            body = {"plain": drows, "trailing_blank": drows + [""], "trailing_comment": drows + ["# end of data"],
+                    "leading_blank": [""] + drows}[bA]
+            secs.append([TITLES["A"][pt["tA"]]] + body)
     text = lasgen.render(secs)
     exp = np.array(matrix)
-    exp[0, 1] = np.nan
+    if pt.get("wnull", True):
+        exp[0, 1] = np.nan
     return text, abstract, exp
 
 
@@ -170,9 +181,10 @@ def check_point(pt):
             continue
         got = [(i.original_mnemonic, i.unit, canon.value_tag(i.value, "numeric"), i.descr) for i in sec]
         want = [(m, u, canon.value_tag(v, "numeric"), d) for (m, u, v, d) in abstract[s]]
-        if s == "C":
-            # surplus/unnamed curves would also be an attribution error
-            pass
+        if s == "C" and not pt.get("ignore_data"):
+            # undeclared data columns (the surplus column, the date column) become unnamed curves after the declared ones
+            extra = (1 if pt.get("surplus") else 0) + (1 if pt.get("dates") else 0)
+            want = want + [("", "", ("str", ""), "")] * extra
         if got != want:
             vio.append(V("items-of-" + key if s != "X" else "items-of-custom", want, got))
     if las.sections.get("Other") != abstract["O"]:
@@ -180,7 +192,13 @@ def check_point(pt):
     if pt.get("ignore_data"):
         return vio, nontriv, "ok", {}, 1
     try:
-        data = las.data
+        cols = [np.asarray(c.data) for c in las.curves]
+        if pt.get("dates"):
+            dcol = [str(x) for x in cols[-1].tolist()] if cols else None
+            if dcol != ["2018-05-%02d" % (i + 20) for i in range(exp.shape[0])]:
+                vio.append(V("date-column", ["2018-05-%02d" % (i + 20) for i in range(exp.shape[0])], dcol))
+            cols = cols[:-1]
+        data = np.vstack([c.astype(float) for c in cols]).T if cols else np.zeros((0, 0))
         ok = data.shape == exp.shape and np.array_equal(np.isnan(data), np.isnan(exp)) and np.array_equal(
             np.nan_to_num(data.astype(float)), np.nan_to_num(exp))
     except Exception as e:
@@ -204,6 +222,11 @@ def classify(pt, clause):
         feats.append("ignore_data")
     if pt["tX"] >= 5:
         feats.append("custom-title-with-underscore")
+    for k in ("bA", "surplus", "dates"):
+        if pt.get(k) not in (None, False, "plain"):
+            feats.append("%s=%s" % (k, pt[k]))
+    if pt.get("wnull") is False:
+        feats.append("no-well-null")
     return "+".join(feats) or "plain"
 
 
